@@ -403,6 +403,17 @@ class PteraTransformer(NodeTransformer):
         value_arg = self._get("ABSENT") if value is None else value
         pre = []
         subscripted = None
+        if isinstance(target, ast.Subscript) and not expression:
+            # The index is an expression of the function like any other
+            # (it may bind a variable: o[(k := f())] = v)
+            target = ast.copy_location(
+                ast.Subscript(
+                    value=target.value,
+                    slice=self.visit(target.slice),
+                    ctx=target.ctx,
+                ),
+                target,
+            )
         if (
             isinstance(target, ast.Subscript)
             and isinstance(target.value, ast.Name)
